@@ -1,7 +1,11 @@
 """C09 - a node matches a pattern exactly when the pattern, as an expression, selects it from some ancestor-or-self.
 GEN: seeded pattern ASTs ('/', '//', positional and boolean predicates, all node tests, id() heads, unions) + systematic families.
 RUN: XPathProcessorImpl::initMatchPattern + XPath::getMatchScore for every node of the document (harness/xp.cpp, mode match).
-TV : Trace_C09.tla computes the match set from the definition (XPathSem!MatchSet) and compares."""
+TV : Trace_C09.tla computes the match set from the definition (XPathSem!MatchSet) and compares.
+MC : MC_Pattern.tla - the transcription of Xalan's right-to-left matcher (spec/impl/PatternMatcherImpl.tla) agrees with
+     the definition over a bounded family outside the named deviation classes, which are shown real.
+KNOWN vs VIOLATION: a case the definition rejects is re-examined by Trace_C09impl.tla: KNOWN iff the recorded set is
+     exactly what the transcribed algorithm computes and every differing node is in a named class (KD_<key>)."""
 import os, random, json, subprocess
 import vlib, xdm, xpgen
 from xpgen import *
@@ -10,6 +14,7 @@ from props import c02
 
 PROP = "C09"
 TRACE = os.path.join(ROOT, "spec/trace/Trace_C09.tla")
+IMPL = os.path.join(ROOT, "spec/trace/Trace_C09impl.tla")
 
 
 class PGen:
@@ -122,24 +127,25 @@ MC_ATESTS = [t_name("x"), T_ANY, T_NODE]
 MC_PREDS = [num(1), fn("last"), path([step("child", t_name("b"))]), path([step("attribute", t_name("x"))])]
 
 
-def _rel_paths(nsteps, maxpreds, tests, attr_last=True):
-    """all relative patterns of exactly nsteps steps: tests x separators x (<= maxpreds predicates, one per step at most)"""
+def _rel_paths(firsts, lasts, seps, maxpreds, preds=None):
+    """relative patterns t1 sep t2 ... sep tn: firsts = list of test lists for steps 1..n-1, lasts = (axis, test) of the
+    last step, every separator choice out of seps, every placement of <= maxpreds predicates (at most one per step)"""
     import itertools
+    preds = MC_PREDS if preds is None else preds
+    n = len(firsts) + 1
     out = []
-    lasts = [("child", t) for t in tests] + ([("attribute", t) for t in MC_ATESTS] if attr_last else [])
-    for firsts in itertools.product(tests, repeat=nsteps - 1):
+    for fs in itertools.product(*firsts):
         for last in lasts:
-            axes_tests = [("child", t) for t in firsts] + [last]
-            for seps in itertools.product(("/", "//"), repeat=nsteps - 1):
-                for npred in range(0, min(maxpreds, nsteps) + 1):
-                    for where in itertools.combinations(range(nsteps), npred):
-                        for ps in itertools.product(MC_PREDS, repeat=npred):
+            axes_tests = [("child", t) for t in fs] + [last]
+            for sp in itertools.product(seps, repeat=n - 1):
+                for npred in range(0, min(maxpreds, n) + 1):
+                    for where in itertools.combinations(range(n), npred):
+                        for ps in itertools.product(preds, repeat=npred):
                             steps = []
                             for i, (ax, t) in enumerate(axes_tests):
-                                if i > 0 and seps[i - 1] == "//":
+                                if i > 0 and sp[i - 1] == "//":
                                     steps.append(dict(DOS))
-                                pr = [ps[where.index(i)]] if i in where else []
-                                steps.append(step(ax, t, *pr))
+                                steps.append(step(ax, t, *([ps[where.index(i)]] if i in where else [])))
                             out.append(steps)
     return out
 
@@ -158,17 +164,23 @@ def _anchored(steps_list, anchors):
 
 
 def mc_family(tier):
-    """the bounded pattern family of MC_Pattern (also replayed on the real matcher in the thorough tier)"""
+    """the bounded pattern family of MC_Pattern (also replayed on the real matcher)"""
     quick = tier == "quick"
-    q = 1 if quick else 2
-    pats = _anchored(_rel_paths(1, q, MC_TESTS), ("", "/", "//"))
-    pats += _anchored(_rel_paths(2, q, MC_TESTS), ("", "/", "//"))
+    T5 = MC_TESTS
+    T3 = [t_name("a"), T_ANY, T_NODE]
+    L8 = [("child", t) for t in T5] + [("attribute", t) for t in MC_ATESTS]
+    L3 = [("child", t_name("a")), ("child", T_NODE), ("attribute", t_name("x"))]
+    ALL, SL = ("", "/", "//"), ("/", "//")
+    pats = _anchored(_rel_paths([], L8, SL, 1), ALL)                                             # 1 step, <= 1 predicate
+    pats += _anchored(_rel_paths([T5], L8, SL, 0), ALL)                                          # 2 steps, no predicate
     if quick:
-        pats += _anchored(_rel_paths(3, 0, [t_name("a"), t_name("b"), T_ANY, T_NODE], attr_last=False), ("", "/"))
-        pats += _anchored(_rel_paths(3, 1, [t_name("a"), T_NODE], attr_last=False), ("",))
+        pats += _anchored(_rel_paths([T3], L3, SL, 1), ("",))                                    # 2 steps, 1 predicate
+        pats += _anchored(_rel_paths([[t_name("a"), t_name("b"), T_NODE]] * 2, [("child", t) for t in (t_name("a"), t_name("b"), T_NODE)], SL, 0), ("", "/"))
     else:
-        pats += _anchored(_rel_paths(3, 1, MC_TESTS), ("", "/", "//"))
-        pats += _anchored(_rel_paths(3, 2, [t_name("a"), t_name("b"), T_NODE], attr_last=False), ("", "/"))
+        pats += _anchored(_rel_paths([T5], L8, SL, 1), ALL)
+        pats += _anchored(_rel_paths([T3], L3 + [("child", T_TEXT), ("attribute", T_NODE)], SL, 2), ("", "/"))
+        pats += _anchored(_rel_paths([T5, T5], L8, SL, 0), ALL)                                  # 3 steps, no predicate
+        pats += _anchored(_rel_paths([T3, T3], L3, SL, 1), ("", "/"))                            # 3 steps, 1 predicate
     # unions of two: every deviation class next to an unaffected alternative, and pairs of classes
     alts = [path([step("child", t_name("a")), dict(DOS), step("child", t_name("b"))], abs_=True),
             path([step("child", t_name("b")), step("child", t_name("a")), dict(DOS), step("child", t_name("b"))]),
@@ -206,31 +218,57 @@ def mc_docs(tier):
               R(E("a", E("a", E("a", E("b", a=[A("x", "1")]), E("a", E("b"), E("b"))), E("b")), a=[A("id", "i1")])),
               R(E("b", E("b", E("a", E("a", T("t"), E("b", T("t"))), a=[A("id", "i2"), A("x", "1")])))),
               c02.fixed_docs()[2], c02.fixed_docs()[4]]
-    fam = list(xdm.enum_docs(5))
+    fam = list(xdm.enum_docs(5, texts=("t",)))           # all documents with <= 5 nodes over {a, b}, @x, text 't'
     if tier == "quick":
-        fam = fam[::2]
+        fam = fam[::4]
     return nested + fam
 
 
-def mc_pattern(res, tier, wd, workers=4):
+def mc_pattern(tier, wd, workers):
     pats, docs = mc_family(tier), mc_docs(tier)
     pp, dp = os.path.join(wd, "mc-pats.ndjson"), os.path.join(wd, "mc-pdocs.ndjson")
     vlib.write_ndjson(pp, [{"text": xpgen.render(p_), "pat": xpgen.strip_render_only(p_)} for p_ in pats])
     vlib.write_ndjson(dp, [xdm.flatten(t, c02.ID_ATTRS) for t in docs])
     r = vlib.tlc_mc(MC, name="patmc", env={"DOCS": dp, "PATS": pp}, workers=workers, timeout=3000)
-    res.add_mc(r, "MC_Pattern (PatternMatcherImpl vs XPathSem!MatchSet: %d patterns x %d documents, every node; known deviations named and shown real)" % (len(pats), len(docs)))
-    return pats, docs
+    return r, "MC_Pattern (PatternMatcherImpl vs XPathSem!MatchSet: %d patterns x %d documents, every node; known deviations named and shown real)" % (len(pats), len(docs))
+
+
+def classify_rejects(rej_evs, dpath, tag="c09cl"):
+    """second opinion on the events the DEFINITION rejected: Trace_C09impl in classify mode compares the recorded set
+    with what the transcribed (known-deviating) algorithm computes.  Returns one (verdict, detail) per event:
+    ("KNOWN", [keys]) | ("UNNAMED", msg) | ("VIOLATION", msg)"""
+    if not rej_evs:
+        return []
+    cl, _ = vlib.tlc_validate_sharded(IMPL, rej_evs, tag=tag, env={"DOCS": dpath, "MODE": "classify"}, stateless=True, timeout=3000)
+    by = {c["line"]: c["msg"] for c in cl}
+    out = []
+    for k in range(len(rej_evs)):
+        msg = by.get(k)
+        if msg is None:
+            raise vlib.Infra("Trace_C09impl gave no classification for event %d" % k)
+        if msg.startswith("KNOWN "):
+            out.append(("KNOWN", [x for x in msg[6:].split(",") if x]))
+        elif msg.startswith("UNNAMED") or msg.startswith("AGREES"):
+            out.append(("UNNAMED", msg))
+        else:
+            out.append(("VIOLATION", msg))
+    return out
 
 
 def run(res, tier, seed):
+    from concurrent.futures import ThreadPoolExecutor
     rng = random.Random(seed)
     quick = tier == "quick"
     wd = vlib.workdir("c09-%d" % os.getpid())
+    pool = ThreadPoolExecutor(max_workers=1)
+    mcf = pool.submit(mc_pattern, tier, wd, 4 if quick else 8)       # model checking runs beside the conformance run
     c02.mc_laws(res, tier, wd)
-    docs = c02.make_docs(rng, 4 if quick else 30)
+    docs = c02.make_docs(rng, 4 if quick else 30) + mc_docs(tier)[:4]
     flats = [xdm.flatten(t, c02.ID_ATTRS) for t in docs]
     g = PGen(rng)
-    pats = systematic() + [g.pattern() for _ in range(1500 if quick else 40000)]
+    fam = mc_family(tier)
+    nrand = 1500 if quick else 40000
+    pats = systematic() + fam + [g.pattern() for _ in range(nrand)]
     cases = []
     for p in pats:
         for d in rng.sample(range(len(docs)), 3 if quick else 5):
@@ -243,85 +281,48 @@ def run(res, tier, seed):
     res.cov["evaluations"] = len(evs)
     dpath = os.path.join(wd, "docs.ndjson")
     vlib.write_ndjson(dpath, flats)
+    # 1. the definition decides
     rejects, st = vlib.tlc_validate_sharded(TRACE, evs, tag="c09tv", env={"DOCS": dpath}, stateless=True, timeout=3000)
+    # 2. what the definition rejects is either exactly the behaviour of the transcribed algorithm inside a named
+    #    deviation class (KNOWN) or a violation
     known = {k["key"]: k for k in vlib.known_findings(PROP)}
-    for rj in rejects:
+    verdicts = classify_rejects([evs[rj["line"]] for rj in rejects], dpath)
+    for rj, (verdict, detail) in zip(rejects, verdicts):
         ev = evs[rj["line"]]
-        key = classify(ev, rj["msg"])
-        if key and key in known:
-            res.known(known[key])
-        else:
-            res.violation("pattern %s on doc %s: %s" % (ev["text"], ev["doc"], rj["msg"][:200]), [dict(ev, flatdoc=flats[ev["doc"] - 1], xml=c02.doc_xml(docs[ev["doc"] - 1]))])
+        if verdict == "KNOWN" and detail and all(k in known for k in detail):
+            for k in detail:
+                res.known(known[k])
+            continue
+        why = {"KNOWN": "deviation class without a known_findings entry: %s" % detail,
+               "UNNAMED": "the transcribed matcher computes this set too, but no named deviation class explains it: %s" % detail,
+               "VIOLATION": detail}[verdict]
+        res.violation("pattern %s on doc %s: %s; %s" % (ev["text"], ev["doc"], rj["msg"][:160], str(why)[:240]),
+                      [dict(ev, flatdoc=flats[ev["doc"] - 1], xml=c02.doc_xml(docs[ev["doc"] - 1]))])
+    # 3. thorough: EVERY case against the transcription - a case the definition accepts but the transcription does
+    #    not is a stale/incorrect model (reported, not a violation of the property); rejected-by-both is already above
+    if not quick:
+        irej, _ = vlib.tlc_validate_sharded(IMPL, evs, tag="c09impl", env={"DOCS": dpath, "MODE": "validate"}, stateless=True, timeout=3000)
+        defrej = {rj["line"] for rj in rejects}
+        stale = [r_ for r_ in irej if r_["line"] not in defrej]
+        res.notes["cases_equal_to_transcribed_matcher"] = len(evs) - len(irej)
+        res.notes["transcription_mismatch_where_definition_holds"] = len(stale)
+        for r_ in stale[:5]:
+            vlib.log("C09: PatternMatcherImpl differs from the real matcher where the definition holds: %s on doc %s: %s" % (
+                evs[r_["line"]]["text"], evs[r_["line"]]["doc"], r_["msg"][:200]))
+    r, label = mcf.result()
+    res.add_mc(r, label)
     res.cov["traces_validated_against_impl"] = len(evs) - len(rejects)
     res.cov["distinct_nontrivial"] = len({vlib.canon_hash([e["text"], e["doc"]]) for e in evs if e.get("matched")})
     res.cov["rule"] = ("systematic two/three-step patterns over {a,b,*,node(),text()} x {/,//} x positional predicates, attribute/comment/PI/text/root patterns, "
-                       "+ %d seeded random patterns (1-4 steps, '//' anywhere, positional/boolean/nested-path predicates, id() heads, unions), each on sampled documents "
-                       "with getMatchScore asked for EVERY node; non-trivial = at least one node matches; distinct by (pattern text, document)" % (len(pats) - len(systematic())))
+                       "+ the %d patterns of the model-checked family (MC_Pattern) + %d seeded random patterns (1-4 steps, '//' anywhere, positional/boolean/nested-path "
+                       "predicates, id() heads, unions), each on sampled documents with getMatchScore asked for EVERY node; non-trivial = at least one node matches; "
+                       "distinct by (pattern text, document)" % (len(fam), nrand))
     for ev in evs[::max(1, len(evs) // 4)][:4]:
         res.sample({"pattern": ev["text"], "doc": ev["doc"], "matched": ev.get("matched", ev.get("error"))})
     res.assumptions += ["patterns are matched through XPath::getMatchScore (the entry point template matching, xsl:key and xsl:number use); stylesheet-level uses are covered by C10/C15/C17",
-                        "key() pattern heads are exercised in C15"]
-
-
-def _alts(p):
-    if p.get("op") == "bin" and p["o"] == "|":
-        return _alts(p["a"]) + _alts(p["b"])
-    return [p]
-
-
-def _is_dos(s):
-    return s["axis"] == "descendant-or-self" and s["test"]["t"] == "node" and not s["preds"]
-
-
-def _positional(p):
-    """does predicate p depend on the context position (number-valued or uses position()/last())?"""
-    if p.get("op") == "num":
-        return True
-    txt = xpgen.render(p)
-    return "position()" in txt or "last()" in txt
-
-
-def features(pat):
-    f = set()
-    for alt in _alts(pat):
-        if alt.get("op") != "path":
-            continue
-        steps = alt["steps"]
-        inner = [i for i, s in enumerate(steps) if _is_dos(s) and i > 0]
-        if inner and any(not _is_dos(s) for s in steps[:inner[-1]]):
-            f.add("descendantNoBacktrack")              # a '//' with a step pattern to its left
-        if inner and (alt["abs"] or alt["start"].get("op") != "none"):
-            f.add("anchorLostAfterDescendant")          # '/...//' or id()...//: the anchor is not re-checked
-        for s_ in steps:
-            if _is_dos(s_):
-                continue
-            if s_["axis"] == "child" and s_["test"]["t"] == "node":
-                f.add("childNodeTestAcceptsRoot")
-            if s_["axis"] == "attribute" and s_["test"]["t"] == "node":
-                f.add("attributeNodeTestAcceptsNonAttributes")
-            if s_["axis"] == "attribute" and any(_positional(p) for p in s_["preds"]):
-                f.add("attributeStepPositionalPredicate")
-    return f
-
-
-EXTRA_KEYS = ["childNodeTestAcceptsRoot", "attributeNodeTestAcceptsNonAttributes", "anchorLostAfterDescendant"]
-MISSING_KEYS = ["attributeStepPositionalPredicate", "descendantNoBacktrack"]
-
-
-def classify(ev, msg):
-    """semantic classes of the known matcher deviations: a rejection is attributed to a known class only when the
-    pattern has the syntactic feature of that class AND the direction of the error (false positive / false negative)
-    is the one that class produces"""
-    if "error" in ev:
-        return None
-    missing = "missing {}" not in msg
-    extra = not msg.rstrip().endswith("extra {}")
-    f = features(ev["pat"])
-    ek = [k for k in EXTRA_KEYS if k in f]
-    mk = [k for k in MISSING_KEYS if k in f]
-    if (extra and not ek) or (missing and not mk):
-        return None
-    return (ek[0] if extra else mk[0])
+                        "key() pattern heads are exercised in C15",
+                        "a rejected case is a KNOWN finding only if the recorded match set is exactly what the transcribed algorithm (PatternMatcherImpl.tla) computes and "
+                        "every differing node lies in a named deviation class of known_findings.jsonl; the transcription itself is compared with the real matcher on every case in the thorough tier"]
 
 
 def replay(path):
@@ -335,6 +336,13 @@ def replay(path):
     any_doc = next(iter(flats.values()))
     vlib.write_ndjson(dpath, [flats.get(i + 1, any_doc) for i in range(n)])
     rejects, _ = vlib.tlc_validate_sharded(TRACE, events, shards=1, tag="c09replay", env={"DOCS": dpath}, stateless=True)
-    for r in rejects:
-        print("REJECTED: %s" % r["msg"])
-    return 1 if rejects else 0
+    verdicts = classify_rejects([events[r["line"]] for r in rejects], dpath, tag="c09replaycl")
+    known = {k["key"] for k in vlib.known_findings(PROP)}
+    bad = 0
+    for r, (verdict, detail) in zip(rejects, verdicts):
+        if verdict == "KNOWN" and detail and all(k in known for k in detail):
+            print("KNOWN-FINDING (%s): %s" % (",".join(detail), r["msg"]))
+        else:
+            bad += 1
+            print("REJECTED: %s; %s" % (r["msg"], detail))
+    return 1 if bad else 0
